@@ -71,7 +71,7 @@ def run(v) -> None:
     from sigpyproc.io import bits  # noqa: F401 - import (and compile) before timing anything
     rng = random.Random(seed())
     quick = v.tier == "quick"
-    maxlen = 3 if quick else 7
+    maxlen = 3 if quick else 8
     v.rule = ("calls distinct by (api, site, nbits, order spelling, buffer mode, input bytes); non-trivial = "
               "outcome ok with non-empty input, or an error case")
     v.assumptions += ["TLC 1.8.0 / SANY / CommunityModules Json", "numpy array construction in the driver",
